@@ -299,7 +299,7 @@ fn veto(p: &Program, prev: &Val, new: &Val) -> bool {
     match p.cfg.validator {
         ValidatorMode::Always => false,
         ValidatorMode::Never => true,
-        ValidatorMode::Newer => !(new.seq > prev.seq),
+        ValidatorMode::Newer => !(Program::rank(new.seq) > Program::rank(prev.seq)),
     }
 }
 
